@@ -387,6 +387,7 @@ func c13case(c *runner.Ctx, i int) {
 		ns.mu.Unlock()
 		obs := &c13observer{}
 		var execErr error
+		lastArrivals := -1
 		stmt := "RETRY " + token
 		if batch {
 			c.Add("batches", 1)
@@ -414,6 +415,24 @@ func c13case(c *runner.Ctx, i int) {
 		// speculative executions may still be running: wait for the arrivals to settle
 		if spec > 0 {
 			time.Sleep(30 * time.Millisecond)
+		}
+		// The nodes must have read everything the driver wrote before their logs are judged (a request
+		// the driver already gave up on may still sit in the pipe on a loaded machine).
+		for settle, quiet := 0, 0; settle < 1000 && quiet < 3; settle++ {
+			pending := 0
+			for _, sc := range cl.AllConns() {
+				pending += sc.C.Pending()
+			}
+			ns.mu.Lock()
+			cur := len(ns.arrivals[token])
+			ns.mu.Unlock()
+			if pending == 0 && cur == lastArrivals {
+				quiet++
+			} else {
+				quiet = 0
+			}
+			lastArrivals = cur
+			time.Sleep(2 * time.Millisecond)
 		}
 		ns.mu.Lock()
 		var arr []*c13arrival
@@ -469,11 +488,14 @@ func c13case(c *runner.Ctx, i int) {
 		if !idem {
 			// never executed speculatively, never retried
 			if len(arr) != 1 {
-				// sequential retries (every arrival but the last had failed, within the policy's budget) versus anything else
-				seq := rp != nil && len(arr) <= 1+maxRetries
-				for x := 0; x+1 < len(arr); x++ {
-					if arr[x].kind == "ok" || arr[x].kind == "slow-ok" || arr[x].doneT.IsZero() || arr[x+1].t.Before(arr[x].doneT) {
-						if arr[x].kind != "no-answer" {
+				// Retried one attempt after the other, or executed concurrently (speculatively)? Decided on the
+				// driver's own record of its attempts: two attempts overlap only if the driver ran them at the
+				// same time. (The nodes' clocks cannot tell: under load an answer can outlive the driver's
+				// timeout, and the retry then reaches the next node while the first is still answering.)
+				seq := rp != nil
+				for x := range att {
+					for y := x + 1; y < len(att); y++ {
+						if att[x].start.Before(att[y].end) && att[y].start.Before(att[x].end) {
 							seq = false
 						}
 					}
@@ -629,10 +651,13 @@ func c13case(c *runner.Ctx, i int) {
 }
 
 type c13attempt struct {
-	host string
-	kind string
-	n    int
+	host       string
+	kind       string
+	n          int
+	start, end time.Time // the driver's own record of the attempt
 }
+
+func (a c13attempt) String() string { return fmt.Sprintf("{%s %s %d}", a.host, a.kind, a.n) }
 
 type c13observer struct {
 	n   int64
@@ -640,9 +665,9 @@ type c13observer struct {
 	att []c13attempt
 }
 
-func (o *c13observer) add(h *gocql.HostInfo, err error, n int) {
+func (o *c13observer) add(h *gocql.HostInfo, err error, n int, start, end time.Time) {
 	atomic.AddInt64(&o.n, 1)
-	a := c13attempt{kind: errKind(err), n: n}
+	a := c13attempt{kind: errKind(err), n: n, start: start, end: end}
 	if h != nil {
 		a.host = h.ConnectAddress().String()
 	}
@@ -652,8 +677,8 @@ func (o *c13observer) add(h *gocql.HostInfo, err error, n int) {
 }
 
 func (o *c13observer) ObserveQuery(ctx context.Context, q gocql.ObservedQuery) {
-	o.add(q.Host, q.Err, q.Attempt)
+	o.add(q.Host, q.Err, q.Attempt, q.Start, q.End)
 }
 func (o *c13observer) ObserveBatch(ctx context.Context, b gocql.ObservedBatch) {
-	o.add(b.Host, b.Err, b.Attempt)
+	o.add(b.Host, b.Err, b.Attempt, b.Start, b.End)
 }
